@@ -384,8 +384,10 @@ def R_clock(toks):
     return out, n
 
 def R_forcontinue(toks):
-    """inside a `for` body, a top-level statement `if COND { continue; }` followed by REST… becomes `if COND { } else { REST… }`
-    (same control flow; Verus 0.2026.09.13 does not support `continue` in for-loops)."""
+    """inside a `for` body, a top-level statement `if COND { continue; }` followed by REST… becomes `if COND { } else { REST… }`;
+    `if COND { STMTS…; continue; } REST…` becomes `if COND { STMTS… } else { REST… }`; a `continue;` that is the last statement of
+    the body (or of such an else-block) is dropped (same control flow; Verus 0.2026.09.13 does not support `continue` in for-loops).
+    A labelled `continue 'l` is left alone."""
     out = list(toks); n = 0; i = 0
     while i < len(out):
         t = out[i]
@@ -400,6 +402,10 @@ def R_forcontinue(toks):
             bo = j; bc = match_close(out, bo)
             k = bo + 1
             while k < bc:
+                # a `continue;` that is the LAST statement of the region does nothing: dropped
+                if [x.text for x in out[bc-2:bc]] == ["continue", ";"] and bc - 2 >= k:
+                    del out[bc-2:bc]; bc -= 2; n += 1
+                    continue
                 if out[k].text == "if":
                     m = k + 1
                     while out[m].text != "{":
@@ -410,6 +416,14 @@ def R_forcontinue(toks):
                         n += 1
                         # the new else-block is the rest of the loop body: go on inside it (a second `if … { continue; }`)
                         k = m + 4   # bc now indexes the `}` closing the else-block
+                        continue
+                    blk = [x.text for x in out[m+1:me]]
+                    if len(blk) > 2 and blk[-2:] == ["continue", ";"] and (me + 1 >= bc or out[me+1].text != "else"):
+                        # `if COND { STMTS…; continue; } REST…` becomes `if COND { STMTS… } else { REST… }`
+                        del out[me-2:me]; me -= 2; bc -= 2
+                        out = out[:me+1] + _mk(["else", "{"], out[me], " ") + out[me+1:bc] + _mk(["}"], out[bc], " ") + out[bc:]
+                        n += 1
+                        k = me + 3; bc += 2
                         continue
                     if me + 1 == bc:
                         # `if … { BLOCK }` (no else) is the last statement of the region: a `continue` inside BLOCK skips the rest
